@@ -429,6 +429,15 @@ class Gen:
                 return setpc(num(r.choice([0xE0, 0xF0, 0xFB, 0x100, 0x1000, 0x3000]), "hex"))   # also backwards
             return setpc(binop("+", pc(), num(r.choice([1, 2, 3, 5]))))
         if x < 0.96:
+            if self.extras and r.random() < 0.3:
+                # variables are sequential: assigned again (in terms of themselves), read before and after
+                vs = [n for n, k in self.defs.get(scope, {}).items() if k == "var"]
+                if vs and r.random() < 0.6:
+                    nm = r.choice(vs)
+                    return const(nm, binop("+", ident([nm]), num(r.choice([1, 2, 255]))), var=True)
+                nm = self.define(scope, "var")
+                if nm:
+                    return const(nm, num(r.choice([0, 1, 254, 4660])), var=True)
             nm = self.define(scope, "const")
             if nm:
                 return const(nm, self.operand(scope) if r.random() < 0.7 else num(r.choice([0, 1, 255, 256, 4660])))
